@@ -258,14 +258,22 @@ def run_check(mod, tier: str, seed: int, jobs: int, cap_s: Optional[float] = Non
             seen_known.setdefault(k["signature"] + json.dumps(k.get("match", {}), sort_keys=True), (k, v))
             continue
         n_new += 1
-        if v["kind"] in cands or len(cands) < MAX_REPORTED:
-            cands.setdefault(v["kind"], []).append(v)
+        if len(cands.setdefault(v["kind"], [])) < 50:
+            cands[v["kind"]].append(v)
     for k, v in seen_known.values():
         print(f"KNOWN-FINDING: property={prop} {k.get('what', k['signature'])}")
     rc = 0
     reported = 0
     unconfirmed = []
-    for kind, lst in cands.items():
+    def _has_history(lst_):
+        return any(isinstance(x["case"], dict) and x["case"].get("history") for x in lst_)
+
+    # kinds whose cases carry their own operation history are confirmed first (they replay from a fresh process by construction);
+    # at most MAX_REPORTED kinds are reported, at most 2 * MAX_REPORTED are tried
+    ordered = sorted(cands.items(), key=lambda kv: 0 if _has_history(kv[1]) else 1)
+    for kind, lst in ordered[:2 * MAX_REPORTED]:
+        if reported >= MAX_REPORTED:
+            break
         # a failing case is re-executed in this process and in a fresh process before it is reported.  Cases that carry
         # their own operation history are tried first; a case that only fails because of what the worker executed before it
         # (hidden state) is replaced by another case of the same kind or, failing that, by its whole partition.
